@@ -179,6 +179,10 @@ struct SeqOutcome {
 
 fn run_seq(sc: &Scenario, sid: u64) -> SeqOutcome {
     let sh = Shared::new(true);
+    // histories without a caller-side flush run against a wrapped sink whose flush behaves like a buffered sink's
+    if !sc.ops.iter().any(|o| matches!(o, SOp::Flush { .. })) && sid % 2 == 0 {
+        sh.st.lock().unwrap().flush_like_buffered_sink = true;
+    }
     set_current(Some(sh.clone()));
     let mut viol: Vec<V> = Vec::new();
     let mut obs: Vec<(&'static str, u64)> = Vec::new();
